@@ -10,6 +10,7 @@
 #include "ccl/tools/EntityGenerator.h"
 #include "ccl/lang/TextEnvironment.h"
 
+#include <functional>
 #include <map>
 #include <memory>
 
@@ -693,6 +694,37 @@ DRV_OP(OpModelSnap, "model.snap") {
     out["struct_accepted"] = struct_set;
   }
   if (a.value("json", false)) {
+    // workload bound: the document round trip of a model holding a value of tens of thousands of nested sets takes longer than the
+    // per-operation budget under the sanitizers; such states are reported as skipped instead of being serialised
+    size_t cells = 0;
+    const std::function<void(const ccl::object::StructuredData&)> weigh = [&](const ccl::object::StructuredData& v) {
+      if (cells > 20000) {
+        return;
+      }
+      ++cells;
+      if (v.IsCollection()) {
+        if (v.B().Cardinality() > 20000) {
+          cells += 20001;
+          return;
+        }
+        for (const auto& e : v.B()) {
+          weigh(e);
+        }
+      } else if (v.IsTuple()) {
+        for (ccl::rslang::Index i = ccl::rslang::Typification::PR_START; i < v.T().Arity() + ccl::rslang::Typification::PR_START; ++i) {
+          weigh(v.T().Component(i));
+        }
+      }
+    };
+    for (const auto uid : model.List()) {
+      if (const auto data = model.Values().SDataFor(uid); data.has_value()) {
+        weigh(*data);
+      }
+    }
+    if (cells > 20000) {
+      out["json_skipped"] = true;
+      return out;
+    }
     const OJSON doc1(model);
     RSModel loaded{};
     doc1.get_to(loaded);
